@@ -52,6 +52,15 @@ def run_ast(a, backend: str) -> Dict[str, Any]:
             exe.reset()
         except Exception:
             pass
+        try:
+            # the namespaces a query declares (define_enum) stay in a module-level table of the code under test
+            # (C07's subject, a listed finding there); a case of this check must see only its own declarations,
+            # so that a replay file reproduces on its own
+            import func_adl_xAOD.common.cpp_types as ctyp
+
+            ctyp.g_toplevel_ns.clear()
+        except Exception:
+            pass
 
 
 def run_term(t: T.Term, backend: str) -> Dict[str, Any]:
